@@ -1953,8 +1953,8 @@ def ntdll_ZwFreeVirtualMemory(jitter):
 def ntdll_RtlInitString(jitter):
     ret_ad, args = jitter.func_args_stdcall(["pstring", "source"])
     s = get_win_str_a(jitter, args.source)
-    l = len(s) + 1
-    o = struct.pack('HHI', l, l, args.source)
+    l = len(s)
+    o = struct.pack('HHI', l, l + 1, args.source)
     jitter.vm.set_mem(args.pstring, o)
     jitter.func_ret_stdcall(ret_ad, 0)
 
